@@ -66,6 +66,13 @@ Init == /\ ver = [s \in Sources |-> 0]
         /\ fs = [g \in Gen |-> Absent]
         /\ obs = NoObs
 
+\* a lighter family of states for the larger scenarios: every path absent, garbage, what a build would write now (either
+\* option), or what it wrote before every source was edited; sources at version 0
+StatusesLite(g) == {Absent, Garbage} \cup {<<"built", [s \in Relevant(g) |-> v], t>> : v \in {0, 1}, t \in (IF Kind(g) = "out" THEN BOOLEAN ELSE {TRUE})}
+InitLite == /\ ver = [s \in Sources |-> 0]
+            /\ fs \in Pick(Gen, [g \in Gen |-> StatusesLite(g)])
+            /\ obs = NoObs
+
 \* every state, for the per-transition tests
 InitAny == /\ ver \in [Sources -> {0, 1}]
            /\ fs \in Pick(Gen, [g \in Gen |-> Statuses(g)])
